@@ -333,6 +333,131 @@ GENSYM_PROG = r'''
 (print "GENSYM-DONE " bad)
 '''
 
+BOXED_DRIVER = r"""
+(def n (length pool))
+(defn row [f] (each a pool (each b pool (prin (f a b))) (print)))
+(row (fn [a b] (if (= a b) "1" "0")))
+(row (fn [a b] (def c (cmp a b)) (cond (< c 0) "L" (> c 0) "G" "E")))
+(row (fn [a b] (if (< a b) "1" "0")))
+(row (fn [a b] (if (<= a b) "1" "0")))
+(row (fn [a b] (if (> a b) "1" "0")))
+(row (fn [a b] (if (>= a b) "1" "0")))
+(row (fn [a b] (if (= (hash a) (hash b)) "1" "0")))
+(row (fn [a b] (if (= [a :x] [b :x]) "1" "0")))
+(row (fn [a b] (def c (cmp [1 a] [1 b])) (cond (< c 0) "L" (> c 0) "G" "E")))
+(row (fn [a b] (if (= {:k a} {:k b}) "1" "0")))
+(def tbl @{})
+(eachp [i a] pool (when (nil? (get tbl a)) (put tbl a i)))
+(each b pool (prin (or (get tbl b) "none") " "))
+(print)
+(def st (struct ;(mapcat (fn [a] [a true]) pool)))
+(each b pool (prin (if (get st b) "1" "0")))
+(print)
+(print "done " n)
+"""
+
+
+def boxed_values(rng, kind):
+    """Integers whose pairwise differences include multiples of 2^32, values with bit 31 set and the extremes."""
+    lo, hi = (-(1 << 63), (1 << 63) - 1) if kind == "s64" else (0, (1 << 64) - 1)
+    base = [0, 1, 2, (1 << 31) - 1, 1 << 31, (1 << 31) + 1, 1 << 32, (1 << 32) + 1, 3 << 32, 3000000000, 1 << 33, 1 << 53, (1 << 53) + 1, 1 << 62, hi, hi - 1,
+            hi - (1 << 32), lo, lo + 1]
+    if kind == "s64":
+        base += [-1, -2, -(1 << 31), -(1 << 31) - 1, -(1 << 32), -(1 << 32) + 1, -3000000000, -(1 << 62), lo + (1 << 32)]
+    else:
+        base += [1 << 63, (1 << 63) + 1, (1 << 63) - 1, (1 << 64) - (1 << 32)]
+    vals = list(base)
+    for _ in range(8):
+        r = rng.randrange(lo, hi + 1)
+        vals.append(r)
+        for d in (rng.randrange(1, 1 << 31) << 32, 1 << 32, (1 << 31) + rng.randrange(1 << 20), rng.randrange(1, 1 << 31)):
+            for x in (r + d, r - d):
+                if lo <= x <= hi and rng.random() < 0.5:
+                    vals.append(x)
+    rng.shuffle(vals)
+    vals = vals[:34]
+    # duplicates by value, built by another route
+    vals += [rng.choice(vals) for _ in range(8)]
+    return vals
+
+
+def boxed_expr(rng, kind, v):
+    ctor = "int/" + kind
+    c = rng.randrange(4)
+    if c == 0:
+        return '(%s "%d")' % (ctor, v)
+    if c == 1:
+        return '(unmarshal (marshal (%s "%d")))' % (ctor, v)
+    if c == 2:
+        return '(* 1 (%s "%d"))' % (ctor, v)
+    lo = -(1 << 63) if kind == "s64" else 0
+    if v > lo:
+        return '(+ (%s "%d") 1)' % (ctor, v - 1)
+    return '(- (%s "%d") 1)' % (ctor, v + 1)
+
+
+def boxed_pool(ctx, exe, bi):
+    """Laws over boxed 64-bit integers of one kind: primitive = < <= > >= cmp and hash must agree with the integers."""
+    rng = random.Random(ctx.sub_seed("boxed", bi))
+    kind = "s64" if bi % 2 == 0 else "u64"
+    vals = boxed_values(rng, kind)
+    exprs = [boxed_expr(rng, kind, v) for v in vals]
+    script = "(def pool @[])\n" + "".join("(array/push pool %s)\n" % e for e in exprs) + BOXED_DRIVER
+    dd = core.case_dir()
+    path = os.path.join(dd, "boxed.janet")
+    open(path, "w").write(script)
+    res = core.run([exe, path], timeout=300, cpu=120)
+    files = {"boxed.janet": script}
+    if not ctx.check_result(res, files, where="boxed"):
+        core.discard(res)
+        return
+    lines = res.out.decode(errors="replace").splitlines()
+    core.discard(res)
+    n = len(vals)
+    if len(lines) != 10 * n + 3 or not lines[-1].startswith("done"):
+        ctx.violation("boxed-script-failed", "boxed pool script did not complete: %s" % res.err.decode(errors="replace")[-600:], files)
+        return
+    names = ["eq", "cmp", "lt", "le", "gt", "ge", "hasheq", "tupeq", "tupcmp", "structeq"]
+    mats = {nm: lines[mi * n:(mi + 1) * n] for mi, nm in enumerate(names)}
+    tblrow = lines[10 * n].split()
+    if len(tblrow) != n or len(lines[10 * n + 1]) != n:
+        ctx.violation("boxed-script-failed", "boxed pool script printed malformed lookup rows", files)
+        return
+    strow = lines[10 * n + 1]
+
+    def viol(rule, i, j, extra=""):
+        small = "(def pool @[])\n" + "".join("(array/push pool %s)\n" % exprs[x] for x in (i, j)) + BOXED_DRIVER
+        ctx.violation("boxed-%s:%s" % (rule, kind), "%s violated by %s | %s %s" % (rule, exprs[i], exprs[j], extra), {"boxed.janet": small, "full_pool.janet": script})
+
+    first = {}
+    for i, v in enumerate(vals):
+        first.setdefault(v, i)
+    for i in range(n):
+        if tblrow[i] != str(first[vals[i]]):
+            viol("table-lookup", i, first[vals[i]], extra="(table keyed by the pool returned %s, expected index %d)" % (tblrow[i], first[vals[i]]))
+        if strow[i] != "1":
+            viol("struct-lookup", i, i)
+        for j in range(n):
+            ctx.evals()
+            a, b = vals[i], vals[j]
+            want_c = "E" if a == b else ("L" if a < b else "G")
+            if a != b and exprs[i] != exprs[j]:
+                ctx.nontriv(("boxed", bi, i, j))
+            if (mats["eq"][i][j] == "1") != (a == b):
+                viol("eq-vs-value", i, j)
+            if mats["cmp"][i][j] != want_c:
+                viol("cmp-vs-value", i, j, extra="(cmp gave %s)" % mats["cmp"][i][j])
+            if (mats["lt"][i][j] == "1") != (a < b) or (mats["le"][i][j] == "1") != (a <= b) or \
+               (mats["gt"][i][j] == "1") != (a > b) or (mats["ge"][i][j] == "1") != (a >= b):
+                viol("relational-vs-value", i, j)
+            if a == b and mats["hasheq"][i][j] != "1":
+                viol("eq-implies-hash", i, j)
+            if (mats["tupeq"][i][j] == "1") != (a == b) or (mats["structeq"][i][j] == "1") != (a == b):
+                viol("container-eq-vs-value", i, j)
+            if mats["tupcmp"][i][j] != want_c:
+                viol("tuple-cmp-vs-value", i, j)
+    ctx.count("boxed_pools")
+
 
 def run(ctx):
     exe = build.janet("plain")
@@ -440,6 +565,9 @@ def run(ctx):
         ctx.sample({"pool_size": n, "example_entries": [e[1] for e in entries[:4]], "gc": env.get("JANET_VERIF_GC", "default")}, cap=3)
 
     core.pmap(do_pool, range(npools))
+
+    # phase 1b: boxed 64-bit integers (abstract values compared by the primitive operators through their compare hook)
+    core.pmap(lambda bi: boxed_pool(ctx, exe, bi), range(8 if quick else 400))
 
     # phase 2: symbol/keyword re-interning churn
     cpath = os.path.join(d, "churn.janet")
